@@ -1,0 +1,23 @@
+//go:build verif
+
+// Contracts for the deductive verifier in /verif (comment-only: adds no declarations).
+package main
+
+//@ import "os"
+//@ import "io"
+//@ import "crypto/elliptic"
+//@ use logging crypto
+
+// ---- C19: private keys reach only the local SSH agent or files readable solely by the user ----------------------
+// Each of the three places that write a private key uses ioutil.WriteFile; the mode of the key file must be 0600.
+//@ func generateAwsRoleCert
+//@   atcall io/ioutil.WriteFile requires (name string, data []byte, perm os.FileMode) :: strSuffixOf(".key", name) ==> perm == 0600   #C19.aws-role-key-file-0600 @C19
+//@ func insertSSHCertIntoAgentORWriteToFilesystem
+//@   atcall io/ioutil.WriteFile requires (name string, data []byte, perm os.FileMode) :: name == privateKeyPath ==> perm == 0600          #C19.ssh-key-file-0600 @C19
+//@ func setupCerts
+//@   atcall io/ioutil.WriteFile requires (name string, data []byte, perm os.FileMode) :: strSuffixOf(".key", name) ==> perm == 0600   #C19.x509-key-file-0600 @C19
+
+// ---- C19: the key types the client offers (RSA, P-256, P-384 for the main keys; Ed25519) --------------------------
+// The server half of this clause (cmd/keymasterd contract: clientKeyLine) lists exactly these SSH type names.
+//@ func (*signers).compute
+//@   atcall crypto/ecdsa.GenerateKey requires (c elliptic.Curve, rnd io.Reader) :: c == curveP256() || c == curveP384()   #C19.offered-curves @C19
